@@ -389,7 +389,12 @@ func RetOrigins(v ssa.Value) []RetOrigin {
 		}
 		if u, ok := v.(*ssa.UnOp); ok && u.Op == token.MUL {
 			if a, ok := u.X.(*ssa.Alloc); ok {
-				ss := StoresTo(a)
+				// the stores that can reach this load (nearest store on every backward path); when the
+				// entry is reachable without a store, fall back to all stores of the variable
+				ss, complete := reachingStores(u, a)
+				if !complete {
+					ss = StoresTo(a)
+				}
 				if len(ss) > 0 {
 					for _, s := range ss {
 						walk(s, via, to, d+1)
@@ -510,7 +515,20 @@ func mayBeSuccessOrigin(fn *ssa.Function, ret *ssa.Return, v ssa.Value, conv Con
 				return false
 			}
 			f := CondFact(ifi.Cond)
-			if f.Kind != want || f.Subject != Strip(v) {
+			same := f.Subject == Strip(v) || sameMemoryVar(f.Subject, Strip(v))
+			if !same {
+				// the condition may have been resolved to the value stored into the variable: compare the raw operands
+				if bo, ok := ifi.Cond.(*ssa.BinOp); ok {
+					same = sameMemoryVar(bo.X, Strip(v)) || sameMemoryVar(bo.Y, Strip(v))
+					// or the tested operand is a load of a variable into which v was stored just before
+					for _, opnd := range []ssa.Value{bo.X, bo.Y} {
+						if sv := SpilledValue(opnd); sv != nil && Strip(sv) == Strip(v) {
+							same = true
+						}
+					}
+				}
+			}
+			if f.Kind != want || !same {
 				return false
 			}
 			// cut the edge on which v is known to be a failure value; if the
@@ -661,4 +679,72 @@ func SpilledValue(v ssa.Value) ssa.Value {
 		}
 	}
 	return last
+}
+
+// sameMemoryVar: a and b are two loads of the same local variable that lives in memory (captured by a
+// closure / address taken). Used to relate `if err != nil` with the later `return err`.
+func sameMemoryVar(a, b ssa.Value) bool {
+	ua, ok1 := a.(*ssa.UnOp)
+	ub, ok2 := b.(*ssa.UnOp)
+	if !ok1 || !ok2 || ua.Op != token.MUL || ub.Op != token.MUL {
+		return false
+	}
+	al, ok := ua.X.(*ssa.Alloc)
+	return ok && ua.X == ub.X && al != nil
+}
+
+// reachingStores: the values of the nearest stores into alloc a on every backward path from load u.
+// complete is false when some path reaches the function entry (or the allocation) without a store.
+func reachingStores(u *ssa.UnOp, a *ssa.Alloc) ([]ssa.Value, bool) {
+	var out []ssa.Value
+	complete := true
+	seen := map[*ssa.BasicBlock]bool{}
+	var back func(b *ssa.BasicBlock, from int)
+	back = func(b *ssa.BasicBlock, from int) {
+		for i := from; i >= 0; i-- {
+			if st, ok := b.Instrs[i].(*ssa.Store); ok && st.Addr == ssa.Value(a) {
+				out = append(out, st.Val)
+				return
+			}
+			if b.Instrs[i] == ssa.Instruction(a) {
+				complete = false
+				return
+			}
+		}
+		if len(b.Preds) == 0 {
+			complete = false
+			return
+		}
+		for _, p := range b.Preds {
+			if seen[p] {
+				continue
+			}
+			seen[p] = true
+			back(p, len(p.Instrs)-1)
+		}
+	}
+	blk := u.Block()
+	if blk == nil {
+		return nil, false
+	}
+	idx := -1
+	for i, in := range blk.Instrs {
+		if in == ssa.Instruction(u) {
+			idx = i
+		}
+	}
+	if idx < 0 {
+		return nil, false
+	}
+	back(blk, idx-1)
+	// de-duplicate
+	var uniq []ssa.Value
+	dd := map[ssa.Value]bool{}
+	for _, v := range out {
+		if !dd[v] {
+			dd[v] = true
+			uniq = append(uniq, v)
+		}
+	}
+	return uniq, complete && len(uniq) > 0
 }
